@@ -1,6 +1,7 @@
 import WacProofs.Lemmas.EncodeImports2
 import WacProofs.Lemmas.Toposort
 import WacProofs.Lemmas.SpecFold
+import WacProofs.Lemmas.Aggregate
 /-
   C02 — encoded wiring is exactly the composition graph (translation validation, proved once
   for all graph values).
@@ -32,15 +33,14 @@ def importsOf (g : GraphVal) (order : List Nat) : List Nat := order.filter (isIm
   (`Spec.canon`) and there is no hypothesis on the aggregated imports.
 
   Proved here (`wiring_encode_partial`): the same equation with the naming of shared imports
-  taken from the model's aggregator (`agg.canonical`) and under `AggOk g agg`.  Missing for the
-  full strength: (1) `agg.canonical = Spec.canon g` and the `keysNodup / implicitKind /
-  explicitKind` parts of `AggOk` — properties of the name-level aggregation alone, the subject
-  of C03 (`canonical_is_highest`, `canonical_kind`); (2) `AggOk.ifaceNamed`, which is *false*
+  taken from the model's aggregator (`agg.canonical`) and under `AggHyp g agg`.  Missing for the
+  full strength: (1) `agg.canonical = Spec.canon g` and the `implicitKind / explicitKind` parts of `AggHyp` — properties of the name-level aggregation alone, the subject
+  of C03 (`canonical_is_highest`, `canonical_kind`); (2) `AggHyp.ifaceNamed`, which is *false*
   for the shape of known finding `enc-explicit-interface-import-merged` (there the real
   encoder, and the model, wire a designated explicit import to another import), so the full
   statement without it does not hold for the unchanged code.
 -/
-theorem wiring_encode_partial {g : GraphVal} {o : Opts} {s : Skeleton} {order : List Nat} {agg : Agg}
+theorem wiring_encode_of_aggOk {g : GraphVal} {o : Opts} {s : Skeleton} {order : List Nat} {agg : Agg}
     (wf : WF g) (ht : toposort g = .ok order)
     (hagg : aggOf g (importsOf g order) = some agg) (hok : AggOk g agg)
     (he : encode g o = .ok s) :
@@ -90,6 +90,25 @@ theorem wiring_encode_partial {g : GraphVal} {o : Opts} {s : Skeleton} {order : 
           simp only [core, specWiringWith, others, hss, inv2.insts, inv2.aliases, inv2.exports, inv2.comps,
             inv2.names, specExports, List.nil_append]
 
+/-- what `wiring_encode_partial` assumes about the aggregated imports (`AggOk` without the
+    distinctness of the import names, which is proved: `aggOf_keysNodup`) -/
+structure AggHyp (g : GraphVal) (agg : Agg) : Prop where
+  ifaceNamed : ∀ e ∈ fixedImports agg, e.2.kind = .instance → e.2.iface = none ∨ e.2.iface = some e.1 ∨
+    ∃ i, e.2.iface = some i ∧ privIn (fixedImports agg) i ∧ ∀ e' ∈ fixedImports agg, e'.1 ≠ e.1 → e'.2.iface ≠ some i
+  implicitKind : ∀ n ∈ g.nodes, ∀ slot sat p, n.kind = .instantiation slot sat → g.pkg? slot = some p →
+    ∀ r ∈ unsatisfied p sat, aggKind agg r.name = some r.ty.kind
+  explicitKind : ∀ n ∈ g.nodes, ∀ nm, n.kind = .import nm → aggKind agg nm = some n.ty.kind
+
+theorem aggHyp_of_aggOk {g : GraphVal} {agg : Agg} (h : AggOk g agg) : AggHyp g agg :=
+  ⟨h.ifaceNamed, h.implicitKind, h.explicitKind⟩
+
+theorem wiring_encode_partial {g : GraphVal} {o : Opts} {s : Skeleton} {order : List Nat} {agg : Agg}
+    (wf : WF g) (ht : toposort g = .ok order)
+    (hagg : aggOf g (importsOf g order) = some agg) (hok : AggHyp g agg)
+    (he : encode g o = .ok s) :
+    core (wiring s) = core (specWiringWith g agg.canonical o.define (others g order)) :=
+  wiring_encode_of_aggOk wf ht hagg ⟨aggOf_keysNodup hagg, hok.ifaceNamed, hok.implicitKind, hok.explicitKind⟩ he
+
 /-! ### consequences, stated separately (each is a reading of the equation above) -/
 
 /-- the specification's state after the fold: the designated term of every node -/
@@ -102,7 +121,7 @@ def designated (g : GraphVal) (cn : Str → Str) (define : Bool) (ord : List Nat
 
 section
 variable {g : GraphVal} {o : Opts} {s : Skeleton} {order : List Nat} {agg : Agg}
-  (wf : WF g) (ht : toposort g = .ok order) (hagg : aggOf g (importsOf g order) = some agg) (hok : AggOk g agg)
+  (wf : WF g) (ht : toposort g = .ok order) (hagg : aggOf g (importsOf g order) = some agg) (hok : AggHyp g agg)
   (he : encode g o = .ok s)
 include wf ht hagg hok he
 
@@ -250,7 +269,7 @@ def exAgg : Agg :=
 theorem exGraph_wf : WF exGraph := wfCheck_sound (by decide)
 theorem exGraph_toposort : toposort exGraph = .ok exOrder := by decide
 theorem exGraph_agg : aggOf exGraph (importsOf exGraph exOrder) = some exAgg := by decide
-theorem exGraph_aggOk : AggOk exGraph exAgg := aggOkCheck_sound (by decide)
+theorem exGraph_aggOk : AggHyp exGraph exAgg := aggHyp_of_aggOk (aggOkCheck_sound (by decide))
 
 def exSkel : Skeleton :=
   match encode exGraph { define := true } with
